@@ -339,6 +339,12 @@ namespace pika::threads::detail {
                                 is_active_wrapper utilization(counters.is_active_);
                                 auto* thrdptr = get_thread_id_data(thrd);
 
+                                // Record the worker before the body runs: a resume that
+                                // races with this thread's first suspension reads it as the
+                                // scheduling hint (otherwise it is still unset, and the
+                                // thread is re-queued on an arbitrary worker)
+                                thrdptr->set_last_worker_thread_num(num_thread);
+
                                 // Record time elapsed in thread changing state
                                 // and add to aggregate execution time.
                                 exec_time_wrapper exec_time_collector(idle_rate);
